@@ -335,6 +335,10 @@ func produce(emit func(Case)) {
 		n := rootBox(func(p Path, t *Node) { add(p, t, "root_box", allReps) })
 		rep.Exhaustive = append(rep.Exhaustive, fmt.Sprintf("filters reading from $: 6 operators x $-operand left/right x 7 filter positions below the root (member, member.member, wildcard, descent, multi-valued $-path, inner and last) x 11 trees (int/float/string/null keys against int and float members, -2 next to -2.5), existence, negation, conjunction, filter under filter, $ in a nested filter (%d paths)", n))
 	}
+	// 3a". long arrays, large magnitudes, many members, deep nesting
+	if on("big") {
+		rep.Exhaustive = append(rep.Exhaustive, bigStream(lib.NewRng(*seed).Fork(7), full, add, allReps))
+	}
 	// 3b. boundary families named by the properties
 	if on("bound") {
 		i := nInt
@@ -505,10 +509,19 @@ func (w *worker) runC05(c *Case, pw, dw string) error {
 			model = skel
 		}
 		if g.panic != "" {
-			finding("violation", "get-panic:"+r.String(), "Get panics: "+g.panic, c, desc)
+			if c.p.hasHuge() {
+				knownFinding("C05-int-overflow", "get-panic:"+r.String()+":huge", "Get panics on an index, bound or step near MaxInt/MinInt: "+g.panic, c, desc)
+			} else {
+				finding("violation", "get-panic:"+r.String(), "Get panics: "+g.panic, c, desc)
+			}
 			continue
 		}
 		tie := same(g.vals, model, ord)
+		if !tie && c.p.hasHuge() && sameList(model, rfcVals) {
+			// the model computes with unbounded integers and gives the denotation; Go's int wrapped around
+			knownFinding("C05-int-overflow", "get-denotation:"+r.String()+":huge", "Get does not return what the path denotes (an index, bound or step near MaxInt/MinInt wraps around)", c, desc)
+			continue
+		}
 		if !tie && !ord && c.p.descentAfterFrag() && pinned('s') {
 			// which of several containers is descended into (descentSiblings) depends on Go's map order
 			if id, err := w.unorderedSiblings(c, pw, dw, query{"get", r.String(), pinnedFlags}, g.vals); err != nil {
@@ -848,7 +861,11 @@ func (w *worker) runC11(c *Case, pw, dw string) error {
 	x := c.p.expr(true)
 	G := goGet(x, simple)
 	if G.panic != "" {
-		finding("violation", "get-panic:any.map", "Get panics: "+G.panic, c, nil)
+		if c.p.hasHuge() {
+			knownFinding("C11-int-overflow", "get-panic:any.map:huge", "Get panics on an index, bound or step near MaxInt/MinInt: "+G.panic, c, nil)
+		} else {
+			finding("violation", "get-panic:any.map", "Get panics: "+G.panic, c, nil)
+		}
 		return nil
 	}
 	type runT struct {
@@ -948,6 +965,12 @@ func (w *worker) runC11(c *Case, pw, dw string) error {
 				}
 				continue
 			}
+		}
+		if (!tie || !ok) && c.p.hasHuge() {
+			// Go's int arithmetic wraps around on such magnitudes (the model's integers are unbounded): a panic, or
+			// results that differ from the model's / from Get's
+			knownFinding("C11-int-overflow", class+":huge", "evaluator panics or differs on an index, bound or step near MaxInt/MinInt: "+why, c, desc)
+			continue
 		}
 		if !tie {
 			finding("disagreement", "model-"+ru.ev+":"+ru.r.String(), "the evaluator and its model differ", c, desc)
